@@ -7,6 +7,12 @@ HERE = os.path.dirname(os.path.abspath(__file__))
 
 # property -> (technique, level text, level note, design ref)
 CLAIMED = {
+    "C15": (
+        "runtime structural-invariant monitor on every Mesh returned by build(): index validity, unit normals, normal-vs-winding agreement, signed volume, union-find merge of coincident vertices then directed-edge pairing and Euler characteristic, distance to the intended surface; exhaustive over sector/segment counts",
+        "Every sector count 3..32 (thorough 3..64) × segment count 1..16 (1..32) × five radii for cylinder and cone (capped, uncapped, apex 0, base 0), capsule, sphere and torus, the five Platonic solids, boxes with random corners and cubes, and straight-profile lathes over partial azimuth ranges (open: index/normal/winding/surface checks only). Closed solids must be watertight after merging coincident vertices (each directed edge once, its reverse once), have χ = 2 (0 for the torus) and positive signed volume; all normals unit (1e-3) and on the side of (b−a)×(c−a); vertices within 1e-4·extent of the intended surface.",
+        "Outward = (b−a)×(c−a), the convention under which the renderer keeps outward faces with back-face culling; merge tolerance 1e-4·extent; faces collapsing under the merge are dropped.",
+        "DESIGN.md §5 C15",
+    ),
     "C13": (
         "runtime monitor of the codec boundary: round-trip oracle on write_ppm→read_pnm/parse_pnm, differential oracle between the harness's own P2/P3/P5/P6 encoder and the decoder, panic capture and independent header reader on dictionary-mutated, truncated and random byte strings; journal-before-call + address-space cap so that an aborting allocation is attributed to its input",
         "Round trip on images 0..48 px a side (owned and strided sub-views, zero extents, pixel bytes biased to whitespace/'#'/digits right after the header); the same pixel data spelled as P5/P2 and P6/P3 with random whitespace runs and whitespace-preceded comments must decode to the model image; ≥ 600 000 (thorough 60 M) mutated/truncated/random inputs must never panic, and every Ok(image) must have w·h pixels and the header's dims. Both build profiles.",
